@@ -156,6 +156,7 @@ type PtrInfo struct {
 	rootKey string     // region family: type key, or "[]"+elem key for slice backings, or "G:"+name
 	rootTy  types.Type // type of the root object ([N]E style lifting for slice backings is implicit)
 	backing bool       // root is a slice backing: leaves of rootTy (=elem) lifted by BV64
+	idxSort *Sort      // index sort of the backing lift (nil = BV64)
 	steps   []Step
 }
 
